@@ -24,7 +24,8 @@ def run(repo: Repo, chk: Check) -> None:
         "encryption are the very definitions stored in the emitted blob, the nonce in the GCM parameters is the one generated next to the CEK, "
         "the CEK wrapped is the CEK that encrypted; O3 the (L0, L1, L2) for which the key is derived are the ones stored in the envelope and "
         "copied role by role into the key identifier, and the cache keeps covering material (store predicate); O4 both blob layouts are dual; "
-        "O5 the async API is the sync API modulo await. The KEK duality itself is C03's obligation set, key derivation C02's."
+        "O5 the async API is the sync API modulo await. The KEK duality itself is C03's obligation set, key derivation C02's; the SID grammar "
+        "and value ranges (every shape with 1..15 sub authorities is accepted and encodable) are C08's O1/O2, run here as well."
     )
     chk.scope_not = "the equality unprotect(protect(x)) = x as a fact about AES-GCM, AES-KW and HMAC outputs."
     chk.trusted = ["cryptography: aes_key_unwrap inverts aes_key_wrap; AESGCM.decrypt inverts AESGCM.encrypt for the same key, nonce and AAD"]
@@ -49,6 +50,15 @@ def run(repo: Repo, chk: Check) -> None:
     from .c07 import header_writer
 
     header_writer(repo, chk)
+    # "any well-formed SID protection descriptor (1..15 sub-authorities, 0 and 2^32-1 values)": the SID grammar accepts
+    # exactly those shapes and every accepted value fits its field (C08-O1/O2)
+    from sa.intervals import World
+    from . import c08
+
+    f_sid = repo.func("_security_descriptor.sid_to_bytes")
+    chk.analysed(f_sid)
+    w_sid = World(repo)
+    c08.ranges(repo, chk, f_sid, w_sid, c08.grammar(repo, chk, f_sid))
     from . import c03
 
     scratch_scope = (chk.scope_decides, chk.scope_not, list(chk.trusted))
